@@ -746,6 +746,10 @@ def run_pf_session(world, history, proxy_port=12300, timeout=20):
         fc.setup([(socket.AF_INET, "0.0.0.0", 0, 0, 0), (socket.AF_INET6, "::", 0, 0, 0)], [], [],
                  proxy_port, proxy_port, 0, 0, False, None, None, "0x01")
         fc.start()                                  # ROUTES / NSLIST / PORTS / GO ... STARTED
+        # client.py keeps its DNS / UDP tables in module globals: entries left by earlier parts of this check would be
+        # expired against THIS session's multiplexer by onaccept_tcp's sweep once they are 30 s old (thorough tier)
+        client.dnsreqs.clear()
+        client.udp_by_src.clear()
         flows = []                                  # (item, reply line read, outcome)
         for n, it in enumerate(history):
             if it[0] == "H":
